@@ -38,8 +38,26 @@ Definition setting_eqb (a b : setting) : bool :=
 (** one segment of a path expression: literal, `:name`, `*name` (last only) *)
 Inductive seg := Lit (s : string) | Wild (n : string) | CatchAll (n : string).
 
-(** path_params: (name, exact expected value); glob/regex matchers are C03's *)
-Record route := { rt_pat : list seg; rt_params : list (string * string) }.
+(** a typed matcher of path_params: `exact` is modelled; a glob / regex matcher is an
+    oracle — the table of the real matcher's answers on the values of the case
+    (recorded by the driver from gobwas/glob and regexp; a value that is not in the
+    table does not match) *)
+Inductive pmatcher := PExact (v : string) | PTable (answers : list (string * bool)).
+
+Fixpoint table_get (v : string) (t : list (string * bool)) : bool :=
+  match t with
+  | [] => false
+  | (k, b) :: r => if String.eqb v k then b else table_get v r
+  end.
+
+Definition pm_match (m : pmatcher) (v : string) : bool :=
+  match m with
+  | PExact e => String.eqb v e
+  | PTable t => table_get v t
+  end.
+
+(** path_params: (name, typed matcher) *)
+Record route := { rt_pat : list seg; rt_params : list (string * pmatcher) }.
 
 Record rule := {
   r_id : string; r_setting : setting; r_routes : list route; r_backend : option backend }.
@@ -179,12 +197,12 @@ Definition param_value (fx : fixes) (st : setting) (rawpath v : string) : option
        | NoDecode => Some (decode_except_slash fx v)
        end.
 
-Definition param_ok (fx : fixes) (st : setting) (rawpath : string) (cs : caps) (p : string * string) : bool :=
+Definition param_ok (fx : fixes) (st : setting) (rawpath : string) (cs : caps) (p : string * pmatcher) : bool :=
   match assoc (fst p) cs with
   | None => false
   | Some v => match param_value fx st rawpath v with
               | None => false
-              | Some v' => String.eqb v' (snd p)
+              | Some v' => pm_match (snd p) v'
               end
   end.
 
